@@ -34,6 +34,240 @@ func init() {
 	fpRegister("pkg/server/web/helpers.go", "TextToHTML", "WrapURL")
 	register("SanitizeConsts.v", genSanitizeConsts)
 	register("SanitizePolicy.v", genSanitizePolicy)
+	register("SanitizePipeline.v", genSanitizePipeline)
+}
+
+// ---------------------------------------------------------------- pipeline structure of HTML()
+
+// exprName renders f or pkg.f / recv.f
+func exprName(e ast.Expr) string {
+	switch x := e.(type) {
+	case *ast.Ident:
+		return x.Name
+	case *ast.SelectorExpr:
+		if b := exprName(x.X); b != "" {
+			return b + "." + x.Sel.Name
+		}
+	case *ast.ParenExpr:
+		return exprName(x.X)
+	}
+	return ""
+}
+
+type passInfo struct {
+	name    string
+	args    []string
+	lhs     []string
+	guarded bool
+}
+
+// passesOf lists the calls in the body of fn in source order; a call is guarded when it sits
+// inside an if / switch / for / range / select / function literal, or right of a short-circuit
+// operator: i.e. when it does not run on every invocation. canon renames identifiers by first
+// occurrence (parameters, named results, then body) so that a renaming is not a change.
+func passesOf(fn *ast.FuncDecl) (passes []passInfo, returns []string, nparams int) {
+	canon := map[string]string{}
+	cn := func(id string) string {
+		if id == "_" || id == "nil" || id == "true" || id == "false" {
+			return id
+		}
+		if c, ok := canon[id]; ok {
+			return c
+		}
+		c := "v" + strconv.Itoa(len(canon))
+		canon[id] = c
+		return c
+	}
+	for _, f := range fn.Type.Params.List {
+		for _, n := range f.Names {
+			cn(n.Name)
+			nparams++
+		}
+	}
+	var named []string
+	if fn.Type.Results != nil {
+		for _, f := range fn.Type.Results.List {
+			for _, n := range f.Names {
+				named = append(named, cn(n.Name))
+			}
+		}
+	}
+	idents := func(es []ast.Expr) []string {
+		var out []string
+		for _, e := range es {
+			if id, ok := e.(*ast.Ident); ok {
+				out = append(out, cn(id.Name))
+			} else {
+				out = append(out, "#expr")
+			}
+		}
+		return out
+	}
+	var walk func(n ast.Node, guarded bool, lhs []string)
+	walkList := func(ns []ast.Stmt, g bool) {
+		for _, s := range ns {
+			walk(s, g, nil)
+		}
+	}
+	var lastReturn *ast.ReturnStmt
+	walk = func(n ast.Node, g bool, lhs []string) {
+		switch x := n.(type) {
+		case nil:
+		case *ast.BlockStmt:
+			walkList(x.List, g)
+		case *ast.ExprStmt:
+			walk(x.X, g, []string{})
+		case *ast.AssignStmt:
+			l := idents(x.Lhs)
+			for _, r := range x.Rhs {
+				walk(r, g, l)
+			}
+		case *ast.DeclStmt:
+			if gd, ok := x.Decl.(*ast.GenDecl); ok {
+				for _, sp := range gd.Specs {
+					if vs, ok := sp.(*ast.ValueSpec); ok {
+						var l []string
+						for _, nm := range vs.Names {
+							l = append(l, cn(nm.Name))
+						}
+						for _, v := range vs.Values {
+							walk(v, g, l)
+						}
+					}
+				}
+			}
+		case *ast.ReturnStmt:
+			if !g {
+				lastReturn = x
+			}
+			for _, r := range x.Results {
+				walk(r, g, []string{"#ret"})
+			}
+		case *ast.IfStmt:
+			walk(x.Init, g, nil)
+			walk(x.Cond, g, []string{"#cond"})
+			walk(x.Body, true, nil)
+			walk(x.Else, true, nil)
+		case *ast.ForStmt:
+			walk(x.Body, true, nil)
+		case *ast.RangeStmt:
+			walk(x.X, g, nil)
+			walk(x.Body, true, nil)
+		case *ast.SwitchStmt:
+			walk(x.Init, g, nil)
+			walk(x.Tag, g, nil)
+			walk(x.Body, true, nil)
+		case *ast.TypeSwitchStmt:
+			walk(x.Body, true, nil)
+		case *ast.SelectStmt:
+			walk(x.Body, true, nil)
+		case *ast.CaseClause:
+			walkList(x.Body, true)
+		case *ast.DeferStmt:
+			walk(x.Call, true, nil)
+		case *ast.GoStmt:
+			walk(x.Call, true, nil)
+		case *ast.FuncLit:
+			walk(x.Body, true, nil)
+		case *ast.ParenExpr:
+			walk(x.X, g, lhs)
+		case *ast.UnaryExpr:
+			walk(x.X, g, []string{"#expr"})
+		case *ast.BinaryExpr:
+			walk(x.X, g, []string{"#expr"})
+			walk(x.Y, g || x.Op == token.LAND || x.Op == token.LOR, []string{"#expr"})
+		case *ast.CallExpr:
+			for _, a := range x.Args {
+				walk(a, g, []string{"#arg"})
+			}
+			if nm := exprName(x.Fun); nm != "" {
+				passes = append(passes, passInfo{nm, idents(x.Args), lhs, g})
+			} else {
+				walk(x.Fun, g, nil)
+				passes = append(passes, passInfo{"#call", idents(x.Args), lhs, g})
+			}
+		}
+	}
+	walk(fn.Body, false, nil)
+	if lastReturn != nil {
+		if len(lastReturn.Results) == 0 {
+			returns = named
+		} else {
+			returns = idents(lastReturn.Results)
+		}
+	}
+	return
+}
+
+func genSanitizePipeline(repo string) (string, error) {
+	_, f, err := parseFile(repo, "pkg/webui/sanitize/html.go")
+	if err != nil {
+		return "", err
+	}
+	hf := findFunc(f, "HTML")
+	stf := findFunc(f, "styleTagFilter")
+	sst := findFunc(f, "sanitizeStyleTags")
+	if hf == nil || stf == nil || sst == nil {
+		return "", fmt.Errorf("HTML / sanitizeStyleTags / styleTagFilter not found in html.go")
+	}
+	var b strings.Builder
+	b.WriteString(coqHeader("C18: the structure of sanitize.HTML (which passes, in which order, on what, unconditionally?) and the tokenizer methods styleTagFilter uses."))
+	emit := func(name string, fn *ast.FuncDecl) {
+		passes, rets, np := passesOf(fn)
+		var parts []string
+		for _, p := range passes {
+			parts = append(parts, fmt.Sprintf("(%s (* %s *), %s, %s, %v)", coqStr(p.name), p.name, coqStrList(p.args), coqStrList(p.lhs), p.guarded))
+		}
+		fmt.Fprintf(&b, "(* %s: calls in source order: (callee, arguments, assigned to, guarded); identifiers renamed v0, v1, ... by first occurrence *)\n", name)
+		fmt.Fprintf(&b, "Definition %s_calls : list (list N * list (list N) * list (list N) * bool) :=\n  [%s].\n", name, strings.Join(parts, ";\n   "))
+		fmt.Fprintf(&b, "Definition %s_returns : list (list N) := %s.\nDefinition %s_nparams : nat := %d.\n\n", name, coqStrList(rets), name, np)
+	}
+	emit("html", hf)
+	emit("style_tags", sst)
+	// methods invoked on the tokenizer inside styleTagFilter, and its constructor
+	tokVar, ctor := "", ""
+	ast.Inspect(stf, func(n ast.Node) bool {
+		if as, ok := n.(*ast.AssignStmt); ok && len(as.Lhs) == 1 && len(as.Rhs) == 1 {
+			if c, ok := as.Rhs[0].(*ast.CallExpr); ok {
+				if nm := exprName(c.Fun); strings.HasPrefix(nm, "html.NewTokenizer") {
+					if id, ok := as.Lhs[0].(*ast.Ident); ok {
+						tokVar, ctor = id.Name, nm
+					}
+				}
+			}
+		}
+		return true
+	})
+	if tokVar == "" {
+		return "", fmt.Errorf("styleTagFilter: no html.NewTokenizer... assignment found")
+	}
+	ms := map[string]bool{}
+	ast.Inspect(stf, func(n ast.Node) bool {
+		if se, ok := n.(*ast.SelectorExpr); ok {
+			if id, ok := se.X.(*ast.Ident); ok && id.Name == tokVar {
+				ms[se.Sel.Name] = true
+			}
+		}
+		return true
+	})
+	var mlist []string
+	for m := range ms {
+		mlist = append(mlist, m)
+	}
+	sort.Strings(mlist)
+	fmt.Fprintf(&b, "Definition tokenizer_ctor : list N := %s. (* %s *)\nDefinition tokenizer_methods : list (list N) :=\n  %s. (* %s *)\n\n", coqStr(ctor), ctor, coqStrList(mlist), strings.Join(mlist, " "))
+	// the pattern handed to Matching() for the style attribute
+	pat := ""
+	ast.Inspect(f, func(n ast.Node) bool {
+		if vs, ok := n.(*ast.ValueSpec); ok && len(vs.Names) == 1 && vs.Names[0].Name == "cssSafe" && len(vs.Values) == 1 {
+			if c, ok := vs.Values[0].(*ast.CallExpr); ok && len(c.Args) == 1 {
+				pat, _ = litString(c.Args[0])
+			}
+		}
+		return true
+	})
+	fmt.Fprintf(&b, "Definition css_safe_pattern : list N := %s. (* %s *)\n", coqStr(pat), strings.ReplaceAll(pat, "*)", "* )"))
+	return b.String(), nil
 }
 
 // genSanitizePolicy dumps the tables of the bluemonday policy sanitize.HTML applies (read by
